@@ -180,6 +180,25 @@ def sched_cells(tier: str) -> dict[str, Callable[[], tuple[Spec, dict, Optional[
         if tier != "quick":
             add(f"S2x3[bands={a}{b}{c}]", lambda: S2(3), 60, 2 * H, pre)
     add("S2x2+1", lambda: S2(2, extra_indep=1), 60, int(1.5 * H))
+    if tier != "quick":
+        # narrow bands (each effort within one slot-length band): small path trees that are exhausted
+        b3 = [(60, H), (H + 1, 2 * H), (2 * H + 1, 3 * H)]
+        for i, (alo, ahi) in enumerate(b3):
+            for j, (blo, bhi) in enumerate(b3):
+                for nm, mk in (("S1x2", lambda: S1(2)), ("S2x2", lambda: S2(2)), ("S2x2g29", lambda: S2(2, gap="29min")), ("S2cross2", lambda: S2cross())):
+                    def f(mk=mk, alo=alo, ahi=ahi, blo=blo, bhi=bhi):
+                        sp = mk()
+                        rg = {"e0": (alo, ahi), "e1": (blo, bhi)}
+                        if "e2" in sp.params():
+                            rg["e2"] = (60, H)
+                        return sp, rg, None
+                    cells[f"{nm}[band={i}{j}]"] = f
+        for kind in ("same-deadline", "chain"):
+            for i, (alo, ahi) in enumerate(b3[:2]):
+                for j, (blo, bhi) in enumerate(b3[:2]):
+                    def g(kind=kind, alo=alo, ahi=ahi, blo=blo, bhi=bhi):
+                        return S7(kind), {"e0": (alo, ahi), "e1": (blo, bhi)}, None
+                    cells[f"S7[{kind},band={i}{j}]"] = g
 
     def with_milestone(gap=None):
         s = S2(2)
@@ -215,7 +234,7 @@ def sched_cells(tier: str) -> dict[str, Callable[[], tuple[Spec, dict, Optional[
 class SxCheck:
     """generic check module body for an Engine-A property"""
 
-    def __init__(self, pid: str, oracles: list[Callable], cells_f: Callable[[str], dict], quick_budget: int = 150, thorough_budget: int = 900,
+    def __init__(self, pid: str, oracles: list[Callable], cells_f: Callable[[str], dict], quick_budget: int = 150, thorough_budget: int = 300,
                  cell_filter: Optional[Callable[[str], bool]] = None):
         self.pid, self.oracles, self.cells_f = pid, oracles, cells_f
         self.quick_budget, self.thorough_budget = quick_budget, thorough_budget
@@ -229,6 +248,9 @@ class SxCheck:
             missing = [n for n in QUICK_CELLS[self.pid] if n not in c]
             assert not missing, missing
             c = {n: c[n] for n in QUICK_CELLS[self.pid]}
+        elif tier != "quick" and self.cells_f is sched_cells and self.pid in THOROUGH_FAMILIES:
+            pref = THOROUGH_FAMILIES[self.pid]
+            c = {n: v for n, v in c.items() if n in QUICK_CELLS.get(self.pid, []) or any(n.startswith(p) for p in pref)}
         return c
 
     def conditions(self, tier: str, seed: int) -> list[dict]:
@@ -338,3 +360,13 @@ QUICK_CELLS = {
     "C10": ["S5containers", "S5dated", "S10[plain]", "S10[dated]", "S10[start]", "S10[dep]", "S3team", "S7[container]", "S7[same-ids]", "S2levels[outer-gap]", "S6[dparent]", "S6[dgroup]"],
 }
 
+
+# the thorough tier of a property = its quick cells + every cell of the families relevant to it
+THOROUGH_FAMILIES = {
+    "C01": ["S1x2", "S2x2[", "S2x2g29", "S1x3", "S2x3", "S2cross", "S3", "S4", "S7[same-deadline", "S7[chain", "S2x2+1"],
+    "C03": ["S1x2", "S2x2[", "S3", "S4", "S2cross", "S7[same-deadline", "S6[dres", "S5containers"],
+    "C04": ["S2x2[gap", "S2x2g29", "S2x2[onstart", "S2x2[band", "S5", "S2levels", "S2x2+milestone", "S7[chain", "S7[container", "S7[same-ids", "S10[dep", "S2cross2"],
+    "C06": ["S1x2[band", "S2x2[", "S2x2g29", "S2x2+milestone", "S3", "S2cross", "S7"],
+    "C08": ["S1x2[band", "S2x2[", "S2x2g29", "S3", "S2cross", "S7", "S2x2+1"],
+    "C10": ["S5", "S10", "S7[container", "S7[same-ids", "S3team", "S6[dparent", "S6[dgroup", "S2levels"],
+}
